@@ -1,3 +1,5 @@
+//go:build !skip_c15
+
 package props
 
 import (
